@@ -19,6 +19,7 @@ ReadyCalls ==
   \cup {<<"add_later", "R2">>, <<"add_later", "L3">>, <<"add_later", "D1">>}
   \cup {<<"compile", "sx">>, <<"compile", "mx">>}
   \cup {<<"use_inst", "mx_engine", "mx">>}
+  \cup {<<"net_step_fail", "">>}
 EngineCalls ==
   {<<"use", n>> : n \in {"numpy", "casadi", "bogus"}}
   \cup {<<"use_inst", "spy_" \o k, k>> : k \in Kinds}
@@ -26,6 +27,7 @@ EngineCalls ==
   \cup {<<"init_all", k>> : k \in {"", "np", "mx"}}
   \cup {<<"init", e, k>> : e \in {"L1", "O1", "D1"}, k \in {"", "np", "mx"}}
   \cup {<<"add_later", "D1">>}
+  \cup {<<"net_step_fail", k>> : k \in {"", "np", "mx"}}
   \cup {<<"step", e, k, "P1", "O0">> : e \in {"L2", "R1"}, k \in {"", "np", "sx", "mx"}}
 PureCalls ==
   {<<"net_step", k, p, o, v>> : k \in {"np", "sx"}, p \in {"P1"}, o \in {"O0", "O1"}, v \in {"V1", "V2"}}
@@ -34,6 +36,7 @@ PureCalls ==
   \cup {<<"init", e, "np">> : e \in {"L2", "O1"}}
   \cup {<<"step", e, "np", "P1", "O0">> : e \in {"L2", "R1"}}
   \cup {<<"add_later", "R2">>, <<"add_later", "D1">>}
+  \cup {<<"net_step_fail", "np">>}
 Calls == CASE Profile = "ready" -> ReadyCalls [] Profile = "engine" -> EngineCalls [] Profile = "pure" -> PureCalls
 
 Init == S = Init0 /\ res = <<"init">> /\ hist = <<>>
@@ -50,6 +53,7 @@ Check ==
      /\ Assert(TouchUnreadies(S, c, S'), <<"C19 TouchUnreadies", hist'>>)
      /\ Assert(AddUnreadies(S, c, S'), <<"C19 AddUnreadies", hist'>>)
      /\ Assert(AddDestUnreadies(S, c, S'), <<"C19 AddDestUnreadies", hist'>>)
+     /\ Assert(FailedStepUnreadies(S, c, S'), <<"C19 FailedStepUnreadies", hist'>>)
      /\ Assert(UseSemantics(S, c, S', res'), <<"C13 UseSemantics", hist'>>)
      /\ Assert(ExplicitHonoured(S, c, S'), <<"C13 ExplicitHonoured", hist'>>)
 Emit == (EmitOn /\ Len(hist') <= MaxDepth) =>
